@@ -10,8 +10,8 @@ head=$(git -C /repo rev-parse HEAD)
 if [ ! -d $wt ]; then git -C /repo worktree add --detach $wt $head >/dev/null 2>&1 || exit 3; fi
 git -C $wt checkout -q --detach $head && git -C $wt checkout -q -- . || exit 3
 if ! git -C $wt apply $patch; then echo "PATCH DOES NOT APPLY on current /repo HEAD"; exit 4; fi
-VERIF_REPO=$wt VERIF_WORK=$work VERIF_SEED=$seed /verif/bin/check $pid --tier $tier > $work.$pid.log 2>&1; rc=$?
+VERIF_REPO=$wt VERIF_WORK=$work VERIF_SEED=$seed /verif/bin/check $pid --tier $tier > $work.$pid.$(basename $patch).log 2>&1; rc=$?
 git -C $wt checkout -q -- .
 echo "mutant slot=$slot pid=$pid tier=$tier rc=$rc"
-grep -E '^(VIOLATION|OK|INCONCLUSIVE)|^  sig=' $work.$pid.log | head -8
+grep -E '^(VIOLATION|OK|INCONCLUSIVE)|^  sig=' $work.$pid.$(basename $patch).log | head -8
 exit $rc
